@@ -213,6 +213,8 @@ def sym_value(ty, name, st):
         return sym_bytes(name, pc)
     if ty == 'Denom':
         return sym_denom(name, pc)[0]
+    if ty == 'PoolKey':
+        return Agg('PoolKey', [sym_denom(name + '_left', pc)[0], sym_denom(name + '_right', pc)[0]])
     raise Inconclusive('no symbolic constructor for type ' + ty)
 
 
